@@ -199,6 +199,7 @@ impl Prop for P {
             rule: "call histories on stream::deflate: (1) exhaustive DFS to depth 3 (quick) / 4 (thorough, on the small roots) over a 48-letter alphabet (input 0/1/rest x output 0/1/5/128K x flush None/Sync/Full/Finish) from 36 roots (6 inputs from empty to 5 KB x 6 configurations), depth 2 from 3 large roots (70-90 KB, where a block outgrows the output buffer), cloning the compressor at each node; (2) random histories of up to 40 calls with arbitrary sizes and all five flush values followed by a Finish loop. After every call the protocol relation is evaluated (counts; empty output refused without side effects, incl. behavioural comparison against a clone; progress; Finish fills the buffer or ends; StreamEnd only after Finish and only with a complete stream (reference inflater); stable afterwards; non-Finish after Finish refused). Non-trivial = a history with a refused or output-full call before the end and a Finish that needed >= 2 calls; distinct by path / case fingerprint",
             assumptions: &["reference inflater (self-checked)", "only clauses stated by the property are asserted; e.g. Err(Buf) for a None call with no input and nothing to do is allowed"],
             dbg: true,
+            simd: false,
             exhaustive: Some("all call sequences of length <= 3 over the 48-letter alphabet from each of the 36 small roots (length <= 2 from the 3 large roots)"),
         }
     }
